@@ -59,7 +59,7 @@ type endpointSim struct {
 	key  string
 	srv  *netlab.ScriptServer
 	mu   sync.Mutex
-	mode string // ok | silent | refuse
+	mode string // ok | silent | refuse | late (answers after the caller timed out)
 	seen map[string]bool
 	addr string
 }
@@ -72,8 +72,15 @@ func (e *endpointSim) handler(ev *netlab.ReqEvent) {
 	e.seen[string(ev.Req.Buffer)] = true
 	m := e.mode
 	e.mu.Unlock()
-	if m == "ok" {
+	switch m {
+	case "ok":
 		_ = ev.Conn.Send(netlab.Echo(ev))
+	case "late":
+		// the answer arrives when the caller has long given up (the calls' timeout is 60 ms): for
+		// the caller, and for the health rules, the call failed
+		rsp := netlab.Echo(ev)
+		conn := ev.Conn
+		time.AfterFunc(150*time.Millisecond, func() { _ = conn.Send(rsp) })
 	}
 }
 
@@ -362,6 +369,57 @@ func runScript(id int, r *rand.Rand, nSteps int) {
 		eps[0].setMode("ok")
 		run.Add("single_failure_prologues", 1)
 	}
+	if id%3 == 1 && nEp >= 2 {
+		// probe-window prologue: endpoint 0 fails until it is blocked; 35 s later a status check
+		// hands out its probe; nobody calls; the registry's answer changes in a non-identity field
+		// and is refreshed; 35 s later another status check; then calls resume: the blocked endpoint gets ONE
+		// probe call, not one per status check that happened while nobody called
+		trace = append(trace, step{Op: "mode", Ep: 0, Mode: "silent"}) // it still accepts connections: a probe can be handed out
+		eps[0].setMode("silent")
+		for round := 0; round < 3 && !models[0].blocked; round++ {
+			trace = append(trace, step{Op: "calls", N: 6 * nEp})
+			for k := 0; k < 6*nEp; k++ {
+				if !doCall() {
+					return
+				}
+			}
+			trace = append(trace, step{Op: "advance", Delta: 6}, step{Op: "check"})
+			cl.SP.VerifShiftHealthClock(6)
+			shifted += 6
+			if !check() {
+				return
+			}
+		}
+		if models[0].blocked {
+			trace = append(trace, step{Op: "advance", Delta: 35}, step{Op: "check"})
+			cl.SP.VerifShiftHealthClock(35)
+			shifted += 35
+			if !check() {
+				return
+			}
+			reg.mu.Lock()
+			changed := append([]registry.Endpoint(nil), reg.active...)
+			changed[len(changed)-1].Grid++
+			reg.active = changed
+			reg.mu.Unlock()
+			trace = append(trace, step{Op: "registry-changes-grid-or-qos", Ep: len(changed) - 1})
+			_ = cl.SP.VerifRefresh()
+			trace = append(trace, step{Op: "advance", Delta: 35}, step{Op: "check"}, step{Op: "calls", N: 4})
+			cl.SP.VerifShiftHealthClock(35)
+			shifted += 35
+			if !check() {
+				return
+			}
+			for k := 0; k < 4; k++ {
+				if !doCall() {
+					return
+				}
+			}
+			run.Add("probe_window_prologues", 1)
+		}
+		trace = append(trace, step{Op: "mode", Ep: 0, Mode: "ok"})
+		eps[0].setMode("ok")
+	}
 	for s := 0; s < nSteps; s++ {
 		switch c := r.Intn(10); {
 		case c < 4:
@@ -377,7 +435,7 @@ func runScript(id int, r *rand.Rand, nSteps int) {
 			}
 		case c < 6:
 			ep := r.Intn(nEp)
-			mode := []string{"ok", "ok", "silent", "silent", "refuse"}[r.Intn(5)]
+			mode := []string{"ok", "ok", "silent", "silent", "refuse", "late"}[r.Intn(6)]
 			trace = append(trace, step{Op: "mode", Ep: ep, Mode: mode})
 			if debug {
 				fmt.Printf("t=%d MODE ep%d %s\n", now(), ep, mode)
@@ -431,6 +489,30 @@ func runScript(id int, r *rand.Rand, nSteps int) {
 			}
 			models[j].away = false
 			run.Add("registry_away_and_back_steps", 1)
+		case c == 6:
+			// the registry's answer changes in a field that is no part of an endpoint's identity
+			// (grid, qos): the refresh takes the changed-list path; whom the list names and what
+			// is known about their health stay as they are
+			j := r.Intn(nEp)
+			reg.mu.Lock()
+			changed := append([]registry.Endpoint(nil), reg.active...)
+			for k := range changed {
+				if changed[k].Host == eps[j].host {
+					if r.Intn(2) == 0 {
+						changed[k].Grid++
+					} else {
+						changed[k].Qos++
+					}
+				}
+			}
+			reg.active = changed
+			reg.mu.Unlock()
+			trace = append(trace, step{Op: "registry-changes-grid-or-qos", Ep: j})
+			_ = cl.SP.VerifRefresh()
+			run.Add("registry_field_change_steps", 1)
+			if !check() {
+				return
+			}
 		case c < 8:
 			d := []int64{1, 2, 9, 10, 12, 34, 35, 40, 70}[r.Intn(9)]
 			trace = append(trace, step{Op: "advance", Delta: d})
